@@ -14,7 +14,7 @@ import (
 
 func newExec(eng *Engine, fn *ssa.Function) *Exec {
 	return &Exec{eng: eng, fn: fn, declIdx: map[string]int{}, keySort: map[string]Sort{}, abstractions: map[string]bool{},
-		usedAssumed: map[string]bool{}, usedContracts: map[string]bool{}, inlined: map[string]bool{}, modelled: map[string]bool{},
+		usedAssumed: map[string]bool{}, usedContracts: map[string]bool{}, inlined: map[string]bool{}, modelled: map[string]bool{}, seenEvents: map[string]bool{},
 		defBody: map[string]string{}, nameCache: map[*ssa.Function]map[string]ssa.Value{}, keyKind: map[string]LeafKind{}, pathIDs: map[string]int{}, loopCache: map[*ssa.Function]map[int]*loopInfo{}, budget: 3000000}
 }
 
@@ -57,6 +57,10 @@ func (eng *Engine) verifyFunction(fn *ssa.Function, c *FuncContract, checkLocks 
 		res.Modelled = sortedKeys(e.modelled)
 		res.SpecErrors = append(res.SpecErrors, e.specErrors...)
 		res.Aborted = e.aborted
+		if c != nil && res.Panic == "" && !e.aborted {
+			e.eventVacuity(c)
+			res.Obls = e.obls
+		}
 		// attach declarations (sliced per obligation at emission time)
 		for _, o := range res.Obls {
 			o.Lines = append(e.declLines(o), o.Lines...)
@@ -394,6 +398,57 @@ func (e *Exec) frameObligations(st *State, c *FuncContract, pos token.Pos) {
 // ---------------------------------------------------------------------------
 // Lemmas
 // ---------------------------------------------------------------------------
+
+// eventVacuity: trace predicates range over the events of this function's own
+// level (its own emits and those its callees' contracts emit). A clause that
+// speaks about an event name which occurs on no path at all at this level is
+// vacuous (an `all`, `first` or implication over it holds trivially): that is
+// a hole in the contract, reported as a failed vacuity obligation. `none`,
+// `only` and `nowhere` are exempt: absence is what they state.
+func (e *Exec) eventVacuity(c *FuncContract) {
+	if e.seenEvents["*"] {
+		return
+	}
+	seen := map[string]bool{}
+	var walk func(x *SExpr, exempt bool)
+	walk = func(x *SExpr, exempt bool) {
+		if x == nil {
+			return
+		}
+		if x.Op == "call" && len(x.Args) > 0 && x.Args[0].Op == "id" {
+			switch x.Args[0].Name {
+			case "none", "only", "nowhere":
+				return
+			case "emitted", "count", "before", "first", "last_is", "all":
+				for i, a := range x.Args[1:] {
+					if x.Args[0].Name == "all" && i > 0 {
+						walk(a, exempt)
+						continue
+					}
+					if (a.Op == "id") || (a.Op == "call" && a.Args[0].Op == "id") {
+						n := patName(a)
+						if !e.seenEvents[n] && !seen[n] {
+							seen[n] = true
+							o := &Obligation{Name: fnKey(e.fn) + "/vacuity:event-occurs:" + n, Group: fnKey(e.fn) + "/vacuity:event-occurs:" + n, Kind: "vacuity", Func: fnKey(e.fn),
+								Pos: "-", Status: "sat", Solver: "-", Text: "a clause of the contract speaks about event " + n + ", which occurs on no path of this function at its own level (callee-internal events are not visible): the clause is vacuous"}
+							e.obls = append(e.obls, o)
+						}
+					}
+				}
+				return
+			}
+		}
+		for _, a := range x.Args {
+			walk(a, exempt)
+		}
+	}
+	for _, cl := range c.Ensures {
+		walk(cl.Expr, false)
+	}
+	for _, cl := range c.PanicEnsures {
+		walk(cl.Expr, false)
+	}
+}
 
 // shapeObligations: the `persisted` declarations, decided by the generator
 // itself from go/types (no solver involved): every listed field exists, is
